@@ -80,8 +80,8 @@ def classify(c, r):
             "R8G8_B8G8_UNORM", "G8R8_G8B8_UNORM", "UYVY", "YUY2", "Y210", "Y216") else "plain"
         w, h = int(t[2]), int(t[3])
         bw, bh = {"bc": (4, 4), "r1": (8, 1), "2x1": (2, 1), "plain": (1, 1)}[fam]
-        return (f"pad {fam} wpad={'y' if w % bw else 'n'} hpad={(bh - h % bh) % bh} "
-                f"chunks={'1' if w <= 512 else '2+'} dith={t[5]}")
+        which = ("w" if w % bw else "") + ("h" if h % bh else "")
+        return f"pad {fam} padded={which or 'none'}" + (" chunks=2+" if w > 512 else "")
     return t[0]
 
 
